@@ -94,6 +94,18 @@ pub fn apply_change_metric(
     }
     e.prev_forest.remove(&index);
     let m = model.ix[op_ix].clone();
+    if !owned {
+        // a profile that does not own the metric-change clauses: its own monitors look first (the item store
+        // through the API is C05's as much as C18's); the raw-layout clauses below would only truncate the case
+        if e.p.checks.store {
+            let probe: Vec<u32> = m.items.keys().copied().take(6).collect();
+            if let Err(err) = with_metric!(to, ND, crate::engine::check_store::<ND>(wtxn, db, &m, &probe, true, &mut e.c)) {
+                return Some(e.own(true, step, "store:after-metric-change", format!("{desc}: {err}")));
+            }
+            e.c.inc("store_checks_after_metric_change");
+        }
+        return None;
+    }
     // ---- raw view of the index
     let own = rawdb::dump_of_index(&post, index);
     let mut n_items = 0usize;
